@@ -25,62 +25,102 @@ HEADER_SIZE = 65536  # docs/WIRE_PROTOCOL.md §11 (also asserted against vgi_rpc
 #: the writer adds to every estimate; the last is an 8 MiB segment.
 SEG_DATA = [1, 4096, 4097, 4600, 8192, 12_000, 16_384, 65_536, 262_144, 1 << 20, (8 << 20) - HEADER_SIZE]
 
-_T_COMMON = [600, 1000, 1024, 1100, 2048, 4096, 5000, 9000, 20_000, 70_000]
+_T_COMMON = [2048, 600, 1000, 1024, 1100, 4096, 5000, 9000, 20_000, 70_000]
 _T_RARE = [300_000, 1_200_000]
 
+_mk = lambda t, b: {"t": t, "b": b}  # noqa: E731
 _target = st.one_of(
+    st.builds(_mk, st.sampled_from(_T_COMMON), st.integers(0, 1)),
     st.none(),
-    st.none(),
-    st.builds(lambda t, b: {"t": t, "b": b}, st.sampled_from(_T_COMMON), st.integers(0, 1)),
-    st.builds(lambda t, b: {"t": t, "b": b}, st.sampled_from(_T_COMMON), st.integers(0, 1)),
-    st.builds(lambda t, b: {"t": t, "b": b}, st.integers(900, 1200), st.integers(0, 1)),
-    st.builds(lambda t: {"t": t, "b": 0}, st.sampled_from(_T_COMMON + _T_RARE)),
+    st.builds(_mk, st.sampled_from(_T_COMMON), st.integers(0, 1)),
+    st.builds(_mk, st.sampled_from(_T_COMMON), st.integers(0, 1)),
+    st.builds(_mk, st.integers(900, 1200), st.integers(0, 1)),
+    st.builds(_mk, st.sampled_from(_T_COMMON + _T_RARE), st.just(0)),
 )
+
+#: index into SEG_DATA; the first entry is what shrinking converges to (a mid-size segment keeps shm in play)
+_SEG_IDX = [6, 0, 1, 2, 3, 4, 4, 5, 5, 6, 6, 7, 7, 7, 8, 8, 9, 9, 10]
 
 _DICT_OF = {"utf8": "dict_utf8", "int64": "dict_int64"}
 
 
-def _dictify(draw: st.DrawFn, cols: list[dict[str, str]]) -> None:
-    for c in cols:
-        if c["type"] in _DICT_OF and draw(st.integers(0, 2)) == 0:
-            c["type"] = _DICT_OF[c["type"]]
+def _dictify(draw: st.DrawFn, cols: list[dict[str, str]]) -> list[dict[str, str]]:
+    return [{"name": c["name"], "type": _DICT_OF[c["type"]] if c["type"] in _DICT_OF and draw(st.integers(0, 2)) == 0 else c["type"]} for c in cols]
+
+
+@st.composite
+def _rows(draw: st.DrawFn, cols: list[dict[str, str]]) -> Any:
+    n = draw(st.sampled_from([1, 2, 3, 1, 2, 3, 1, 0]))
+    if not cols:
+        return n
+    return {c["name"]: [draw(programs._values(c["type"])) for _ in range(n)] for c in cols}
+
+
+@st.composite
+def _emit(draw: st.DrawFn, cols: list[dict[str, str]], may_finish: bool) -> dict[str, Any]:
+    a: dict[str, Any] = {"op": "emit", "rows": draw(_rows(cols)), "meta": draw(programs._meta), "target": draw(_target)}
+    if may_finish and draw(st.integers(0, 5)) == 0:
+        a["finish"] = True
+    return a
+
+
+@st.composite
+def _method(draw: st.DrawFn, idx: int) -> dict[str, Any]:
+    """Same spec shape as ``programs._method`` (no framework faults), weighted towards streams that deliver data."""
+    kind = draw(st.sampled_from(["producer", "exchange", "unary", "producer", "exchange"]))
+    params = draw(programs._params())
+    m: dict[str, Any] = {"name": f"m{idx}", "kind": kind, "params": params}
+    if kind == "unary":
+        ops: list[st.SearchStrategy[dict[str, Any]]] = [st.just({"op": "literal"})] * 2 + [programs._raise_action]
+        ops += [st.just({"op": "return_arg", "arg": p["name"]}) for p in params] * 3
+        ret_t = draw(st.sampled_from(["str", "bytes", "int", "float", "bool", "none"]))
+        action = draw(st.one_of(*ops))
+        if action["op"] == "return_arg":
+            ret_t = next(p["type"] for p in params if p["name"] == action["arg"])
+        elif action["op"] == "literal":
+            action = {"op": "return_none"} if ret_t == "none" else {"op": "return", "value": draw(programs._values(ret_t)), "target": draw(_target)}
+        m["ret"] = ret_t
+        m["behaviour"] = {"logs": draw(programs._logs(2)), "action": action}
+        return m
+    m["header"] = draw(programs._header())
+    m["out_cols"] = _dictify(draw, draw(programs._cols()))
+    m["init"] = {"logs": draw(programs._logs(1)), "action": draw(st.one_of(*([st.just({"op": "ok"})] * 7 + [programs._raise_action])))}
+    if kind == "producer":
+        step = st.one_of(*([_emit(m["out_cols"], True)] * 8 + [st.just({"op": "finish"}), programs._raise_action]))
+        m["steps"] = draw(st.lists(st.fixed_dictionaries({"logs": programs._logs(1), "action": step}), min_size=1, max_size=6))
+    else:
+        m["in_cols"] = _dictify(draw, draw(programs._cols(allow_empty=False)))
+        resp = st.one_of(*([_emit(m["out_cols"], False)] * 5 + [st.just({"op": "echo_len"})] * 2 + [programs._raise_action]))
+        m["responses"] = draw(st.lists(st.fixed_dictionaries({"logs": programs._logs(1), "action": resp}), min_size=0, max_size=5))
+    return m
+
+
+@st.composite
+def _call(draw: st.DrawFn, methods: list[dict[str, Any]]) -> tuple[dict[str, Any], bool]:
+    c = copy.deepcopy(draw(programs._call(methods, True)))
+    m = methods[c["mid"]]
+    if m["kind"] == "exchange":
+        c["inputs"] = [draw(_rows(m["in_cols"])) for _ in range(draw(st.sampled_from([1, 0, 2, 3, 4])))]
+        c["in_targets"] = [draw(_target) for _ in c["inputs"]]
+    tg = {p["name"]: draw(_target) for p in m["params"] if p["type"] in ("str", "bytes")}
+    if tg:
+        c["arg_targets"] = tg
+    return c, m["kind"] == "unary" and bool(m["params"]) and draw(st.integers(0, 2)) == 0
 
 
 @st.composite
 def cases(draw: st.DrawFn, min_bytes: int, max_calls: int = 10) -> dict[str, Any]:
-    spec = copy.deepcopy(draw(programs.program_specs(early_exit=True, max_calls=max_calls, min_steps=1)))
-    for m in spec["methods"]:
-        if m["kind"] == "unary":
-            act = m["behaviour"]["action"]
-            if act["op"] == "return" and m["ret"] in ("str", "bytes"):
-                act["target"] = draw(_target)
-            continue
-        _dictify(draw, m["out_cols"])
-        if m["kind"] == "exchange":
-            _dictify(draw, m["in_cols"])
-        for s in m.get("steps", []) + m.get("responses", []):
-            if s["action"]["op"] == "emit":
-                s["action"]["target"] = draw(_target)
-    raw: list[bool] = []
-    for c in spec["calls"]:
-        m = spec["methods"][c["mid"]]
-        tg = {p["name"]: draw(_target) for p in m["params"] if p["type"] in ("str", "bytes")}
-        if tg:
-            c["arg_targets"] = tg
-        if m["kind"] == "exchange":
-            c["in_targets"] = [draw(_target) for _ in c["inputs"]]
-        raw.append(m["kind"] == "unary" and draw(st.integers(0, 2)) == 0)
+    methods = [draw(_method(i)) for i in range(draw(st.sampled_from([2, 1, 3])))]
+    drawn = draw(st.lists(_call(methods), min_size=3, max_size=max_calls))
     return {
-        "spec": spec,
-        "raw": raw,
-        "seg": draw(st.integers(0, len(SEG_DATA) - 1)),
+        "spec": {"methods": methods, "calls": [c for c, _ in drawn]},
+        "raw": [r for _, r in drawn],
+        "seg": draw(st.sampled_from(_SEG_IDX)),
         "min_bytes": min_bytes,
-        "mode": draw(st.sampled_from(["static", "static", "dynamic"])),
+        "mode": draw(st.sampled_from(["static", "dynamic"])),
         "policy": draw(
-            st.one_of(
-                st.just({"kind": "each"}),
-                st.builds(lambda k: {"kind": "hold", "k": k}, st.integers(1, 3)),
-                st.just({"kind": "never"}),
+            st.sampled_from(
+                [{"kind": "each"}, {"kind": "hold", "k": 1}, {"kind": "hold", "k": 2}, {"kind": "hold", "k": 3}, {"kind": "never"}, {"kind": "never"}]
             )
         ),
     }
